@@ -496,4 +496,9 @@ def rule_pairs(repo: Repo) -> RuleResult:
 
 
 def rules(repo: Repo, tier: str) -> List[RuleResult]:
-    return [rule_simul(repo), rule_order(repo), rule_fields(repo), rule_pairs(repo)]
+    from . import c08
+    renamers = [f for f in repo.all_funcs() if f.name == "change_signature"]
+    return [rule_simul(repo), rule_order(repo), rule_fields(repo), rule_pairs(repo),
+            # every occurrence is renamed: the objects to rename must not be collected in a dict keyed by a part of them (two leaves of
+            # one expression tree that mention the same fluent share their id)
+            c08.rule_nocollapse(repo, "C18.nocollapse", renamers, floor=4)]
